@@ -27,7 +27,9 @@ PROP = 'C10'
 RULE = ("plan = fault point (before opening the file, mid-file, before/after handing over "
         "the k-th batch, before/inside/after index allocation, before/inside/after store sync, "
         "after the last result) x file hit (first/middle/last of N) x workers in {2,4} x "
-        "{os._exit, Python exception} x occurrence k, plus fault-free controls; each followed "
+        "{os._exit, Python exception} x occurrence k, plus fault-free controls, plus task "
+        "failures while the other tasks still hold more result batches than the (patched-down) "
+        "results queue can take; each followed "
         "by a second run in the same process; quick = a seeded sample of the plan space that "
         "always contains the in-lock crash points, thorough = the full enumeration x 3 seeds; "
         "non-trivial = the fault actually fired; distinct by plan")
@@ -54,7 +56,23 @@ def all_plans():
         for workers, nfiles in ((2, 3), (4, 6)):
             plans.append({'kind': 'exit', 'point': point, 'file': 0, 'k': 1, 'hold': 6,
                           'workers': workers, 'nfiles': nfiles})
+    # a task fails while the OTHER tasks still have far more result batches to hand over
+    # than the results queue holds (queue patched down to 3 slots): the collector has to
+    # keep draining until the executor has shut down
+    plans.append({'kind': 'none', 'point': 'none', 'file': 0, 'workers': 1, 'nfiles': 2,
+                  'big': 400, 'queue_size': 3})
+    plans.append({'kind': 'none', 'point': 'none', 'file': 0, 'workers': 2, 'nfiles': 3,
+                  'big': 400, 'queue_size': 3})
+    for workers, nfiles in ((1, 2), (2, 3)):
+        for point in ('before_open', 'mid_file'):
+            plans.append({'kind': 'raise', 'point': point, 'file': 0, 'k': 1, 'workers': workers,
+                          'nfiles': nfiles, 'big': 400, 'queue_size': 3})
     return plans
+
+
+def ckey(plan):
+    """ plans with the same files (hence the same fault-free results) """
+    return (plan['nfiles'], plan.get('big'), plan['file'] if plan.get('big') else 0)
 
 
 def run_plan(plan):
@@ -162,7 +180,9 @@ def judge(rep, item, mo, control):
     rep.count('point_' + plan['point'])
     name = f"{plan['kind']}@{plan['point']} file {plan['file']}/{plan['nfiles']} " \
            f"workers {plan['workers']} k={plan.get('k', 1)}" + \
-           (f" hold={plan['hold']}s" if plan.get('hold') else '')
+           (f" hold={plan['hold']}s" if plan.get('hold') else '') + \
+           (f" other files {plan['big']} lines, results queue of {plan['queue_size']}"
+            if plan.get('big') else '')
     if 'start' not in r:
         raise core.Infra(f"fault plan did not start: {impl['tail']}")
 
@@ -223,7 +243,8 @@ def run(tier, seed, replay_case=None):
     aud = core.audit(PROP)
     plans = all_plans()
     if replay_case is not None:
-        chosen = [plans[0], replay_case]
+        chosen = [next((p for p in plans if p['kind'] == 'none' and ckey(p) == ckey(replay_case)),
+                       plans[0]), replay_case]
     elif tier == 'quick':
         import random
         rng = random.Random(seed)
@@ -232,6 +253,8 @@ def run(tier, seed, replay_case=None):
         # (includes the two hold=6 plans for 2 workers)
         must += [p for p in plans if p['kind'] == 'raise' and p['workers'] == 2 and p['file'] == 1
                  and p['point'] in ('mid_file', 'sync_inside', 'before_open')]
+        must += [p for p in plans if p.get('big') and p['workers'] == 1
+                 and p['point'] in ('none', 'before_open')]
         rest = [p for p in plans[2:] if p not in must]
         chosen = plans[:2] + must + rng.sample(rest, 28)
     else:
@@ -250,9 +273,9 @@ def run(tier, seed, replay_case=None):
     for it in items:
         if it['plan']['kind'] == 'none':
             r1 = it['impl']['report'].get('run2') or {}
-            controls[it['plan']['nfiles']] = {'n': r1.get('n'), 'per_path': r1.get('per_path')}
+            controls[ckey(it['plan'])] = {'n': r1.get('n'), 'per_path': r1.get('per_path')}
     for it, mo in zip(items, mobs):
-        judge(rep, it, mo, controls.get(it['plan']['nfiles']))
+        judge(rep, it, mo, controls.get(ckey(it['plan'])))
     rep.assumptions = ["a dead worker breaks the pool; a broken pool terminates all workers; "
                        "executor shutdown reaps them (ProcessPoolExecutor behaviour, observed, "
                        "not modelled)", "detection latency is only bounded by a generous "
